@@ -721,7 +721,7 @@ class BinaryOp(Expr):
             return -1 if x else 0
 
         def limit(x):
-            if not self.left.type.is_integral:
+            if not self.type.is_integral:
                 return x
 
             c_type = {
